@@ -65,6 +65,9 @@ type addr struct {
 	key  []byte
 }
 
+// dynResolver maps an account path to the public key of the account the current world's wallets hold under it
+var dynResolver func(path string) []byte
+
 func parseAddr(s string) addr {
 	if s == "-" {
 		return addr{}
@@ -77,6 +80,15 @@ func parseAddr(s string) addr {
 		return addr{key: unhex(p[1])}
 	case "b":
 		return addr{name: unhexStr(p[1]), key: unhex(p[2])}
+	case "d":
+		// an account created through dirk at run time, addressed BY ITS PUBLIC KEY (looked up here by name, since the
+		// key is only known once the account exists); by name if it does not exist (yet)
+		if dynResolver != nil {
+			if k := dynResolver(unhexStr(p[1])); k != nil {
+				return addr{key: k}
+			}
+		}
+		return addr{name: unhexStr(p[1])}
 	}
 	panic("bad addr " + s)
 }
